@@ -6,7 +6,12 @@ import (
 	"bufio"
 	"encoding/binary"
 	"fmt"
+	"go/ast"
+	"os"
+	"sort"
 	"strconv"
+	"strings"
+	"sync"
 
 	"github.com/postalsys/muti-metroo/internal/crypto"
 )
@@ -20,6 +25,8 @@ import (
 //	del I|R <k> <mutation>     -> acc <msg>|empty <sI rI sR rR> | rej <sI rI sR rR>
 //	     mutation: none | flip <i> | ctr <v> | pfx <v> | trunc <n> | ext <n>
 //	raw I|R <pfx> <ctr> <len>  -> rej ... (acc ... would be a forgery)
+//	race I|R <k> <G>           -> race <accepted> <msg|empty|-> <sI rI sR rR>
+//	     G goroutines deliver pooled ciphertext k to the same end at the same moment; at most one may accept
 type c01State struct {
 	i, r *crypto.SessionKey
 	pool [][]byte
@@ -137,6 +144,41 @@ func init() {
 					return "bad-op"
 				}
 				return st.deliver(f[1], ct)
+			case f[0] == "race" && len(f) == 4 && (f[1] == "I" || f[1] == "R"):
+				k, g := int(c01U64(f[2])), int(c01U64(f[3]))
+				if k >= len(st.pool) || g < 1 || g > 256 {
+					return "bad-op"
+				}
+				var wg sync.WaitGroup
+				var mu sync.Mutex
+				acc, msg := 0, "-"
+				startCh := make(chan struct{})
+				for t := 0; t < g; t++ {
+					wg.Add(1)
+					go func() {
+						defer wg.Done()
+						ct := append([]byte{}, st.pool[k]...)
+						<-startCh
+						pt, err := st.end(f[1]).Decrypt(ct)
+						if err != nil {
+							return
+						}
+						mu.Lock()
+						acc++
+						switch {
+						case len(pt) == 0:
+							msg = "empty"
+						case len(pt) >= 4:
+							msg = fmt.Sprint(binary.BigEndian.Uint32(pt))
+						default:
+							msg = "?"
+						}
+						mu.Unlock()
+					}()
+				}
+				close(startCh)
+				wg.Wait()
+				return fmt.Sprintf("race %d %s %s", acc, msg, st.ctrs())
 			case f[0] == "raw" && len(f) == 5 && (f[1] == "I" || f[1] == "R"):
 				n := int(c01U64(f[4]))
 				ct := make([]byte, 12, 12+n)
@@ -152,8 +194,152 @@ func init() {
 			}
 			return "bad-op"
 		},
-		Gen: c01Gen,
+		Gen:   c01Gen,
+		Facts: c01Facts,
 	})
+}
+
+// c01Facts: package constants (from the compiled package) and the shape of (*SessionKey).Decrypt
+// (go/ast over the working tree): the receive-window test, aead.Open and the recvNonce update all
+// lie inside one Lock..Unlock region, in that order, and nothing else writes recvNonce.
+func c01Facts(w *bufio.Writer) {
+	fail := func(msg string) {
+		fmt.Fprintln(os.Stderr, "c01 facts:", msg)
+		w.Flush()
+		os.Exit(1)
+	}
+	p, err := c03Parse("internal/crypto")
+	if err != nil {
+		fail(err.Error())
+	}
+	var dec *ast.FuncDecl
+	writers := map[string]bool{}
+	isRecvWrite := func(n ast.Node) bool {
+		switch s := n.(type) {
+		case *ast.IncDecStmt:
+			return strings.HasSuffix(p.txt(s.X), ".recvNonce")
+		case *ast.AssignStmt:
+			for _, l := range s.Lhs {
+				if strings.HasSuffix(p.txt(l), ".recvNonce") {
+					return true
+				}
+			}
+		case *ast.UnaryExpr:
+			return s.Op.String() == "&" && strings.HasSuffix(p.txt(s.X), ".recvNonce")
+		}
+		return false
+	}
+	for _, name := range p.sortedFiles() {
+		for _, d := range p.files[name].Decls {
+			fn, ok := d.(*ast.FuncDecl)
+			if !ok || fn.Body == nil {
+				continue
+			}
+			if fn.Name.Name == "Decrypt" && fn.Recv != nil && strings.Contains(p.txt(fn.Recv.List[0].Type), "SessionKey") {
+				dec = fn
+			}
+			ast.Inspect(fn.Body, func(n ast.Node) bool {
+				if n != nil && isRecvWrite(n) {
+					writers[fn.Name.Name] = true
+				}
+				return true
+			})
+		}
+	}
+	if dec == nil {
+		fail("method (*SessionKey).Decrypt not found")
+	}
+	lock, unlock, open := -1, -1, -1
+	openErrChecked, earlyUnlocksReturn := false, true
+	var reads, writes []int
+	for i, st := range dec.Body.List {
+		if es, ok := st.(*ast.ExprStmt); ok {
+			if c03IsMuCall(p, es.X, "Lock") && lock < 0 {
+				lock = i
+				continue
+			}
+			if c03IsMuCall(p, es.X, "Unlock") && lock >= 0 && unlock < 0 {
+				unlock = i
+				continue
+			}
+		}
+		if ds, ok := st.(*ast.DeferStmt); ok && lock >= 0 && unlock < 0 && c03IsMuCall(p, ds.Call, "Unlock") {
+			unlock = 1000000
+			continue
+		}
+		hasWrite, hasRead, hasOpen := false, false, false
+		ast.Inspect(st, func(n ast.Node) bool {
+			if n == nil {
+				return true
+			}
+			if isRecvWrite(n) {
+				hasWrite = true
+			}
+			if c, ok := n.(*ast.CallExpr); ok {
+				switch c03CallName(c) {
+				case "buildRecvNonce":
+					hasRead = true
+				case "Open":
+					hasOpen = true
+				}
+			}
+			if se, ok := n.(*ast.SelectorExpr); ok && se.Sel.Name == "recvNonce" {
+				hasRead = true
+			}
+			if blk, ok := n.(*ast.BlockStmt); ok && lock >= 0 && unlock < 0 {
+				for _, b := range blk.List {
+					if es, ok := b.(*ast.ExprStmt); ok && c03IsMuCall(p, es.X, "Unlock") {
+						if _, isRet := blk.List[len(blk.List)-1].(*ast.ReturnStmt); !isRet {
+							earlyUnlocksReturn = false
+						}
+					}
+				}
+			}
+			return true
+		})
+		if hasOpen && open < 0 {
+			open = i
+			if i+1 < len(dec.Body.List) {
+				if ifs, ok := dec.Body.List[i+1].(*ast.IfStmt); ok && strings.Contains(p.txt(ifs.Cond), "!= nil") && len(ifs.Body.List) > 0 {
+					if _, isRet := ifs.Body.List[len(ifs.Body.List)-1].(*ast.ReturnStmt); isRet {
+						openErrChecked = true
+					}
+				}
+			}
+		}
+		if hasWrite {
+			writes = append(writes, i)
+		} else if hasRead {
+			reads = append(reads, i)
+		}
+	}
+	if lock < 0 || unlock < 0 || open < 0 {
+		fail(fmt.Sprintf("Decrypt (line %d): Lock/Unlock pair or aead.Open call not found at top level (lock=%d unlock=%d open=%d)", p.line(dec), lock, unlock, open))
+	}
+	var ws []string
+	for x := range writers {
+		ws = append(ws, x)
+	}
+	sort.Strings(ws)
+	b := func(x bool) string {
+		if x {
+			return "true"
+		}
+		return "false"
+	}
+	fmt.Fprintf(w, "-- GENERATED from %s by `harness c01 facts` (compiled constants + go/ast). Do not edit.\n", c03RepoRoot())
+	fmt.Fprintf(w, "namespace MM.Gen.C01\n")
+	fmt.Fprintf(w, "def nonceSize : Nat := %d\ndef tagSize : Nat := %d\ndef encryptionOverhead : Nat := %d\ndef keySize : Nat := %d\n", crypto.NonceSize, crypto.TagSize, crypto.EncryptionOverhead, crypto.KeySize)
+	fmt.Fprintf(w, "/-! internal/crypto/crypto.go:%d (*SessionKey).Decrypt — indices of top-level statements -/\n", p.line(dec))
+	fmt.Fprintf(w, "def lockStmt : Nat := %d\n", lock)
+	fmt.Fprintf(w, "def unlockStmt : Nat := %d   -- 1000000 = deferred\n", unlock)
+	fmt.Fprintf(w, "def recvReadStmts : List Nat := %s   -- statements reading recvNonce / calling buildRecvNonce()\n", c03LeanNatList(reads))
+	fmt.Fprintf(w, "def openStmt : Nat := %d            -- the statement calling aead.Open\n", open)
+	fmt.Fprintf(w, "def openErrChecked : Bool := %s     -- directly followed by `if err != nil { … return }`\n", b(openErrChecked))
+	fmt.Fprintf(w, "def recvWriteStmts : List Nat := %s  -- statements writing recvNonce\n", c03LeanNatList(writes))
+	fmt.Fprintf(w, "def earlyUnlocksReturn : Bool := %s\n", b(earlyUnlocksReturn))
+	fmt.Fprintf(w, "def recvNonceWriters : List String := %s\n", c03LeanStrList(ws))
+	fmt.Fprintf(w, "end MM.Gen.C01\n")
 }
 
 // c01Gen: 60 % honest traffic with network faults (loss, reordering, duplication), 25 % adversarial
@@ -286,8 +472,17 @@ func c01Gen(w *bufio.Writer, seed int64, tier string) {
 				fmt.Fprintf(w, "del %s %d trunc %d\n", other(p.end), k, r.pick(0, 1, 11, 12, 13, 27, 28, 29, 31, 32, 33, 16411, 16412))
 			case d < 98:
 				fmt.Fprintf(w, "raw %s %d %d %d\n", r.pickS("I", "R"), r.pick(0, 0x80000000), r.u64(), r.pick(0, 1, 11, 12, 27))
-			default:
+			case d < 99:
 				fmt.Fprintf(w, "del %s %d ext %d\n", other(p.end), k, r.pick(0, 1, 16))
+			default: // concurrent duplicate delivery
+				y := other(p.end)
+				if r.chance(20) {
+					y = p.end
+				}
+				fmt.Fprintf(w, "race %s %d %d\n", y, k, r.pick(2, 8, 32))
+				if y != p.end && p.ctr >= recv[y] {
+					recv[y] = p.ctr + 1
+				}
 			}
 		}
 	}
